@@ -1,4 +1,60 @@
 """C03 -- Rcb/Rib parts are leaves of a recursive axis-aligned bisection."""
+import os, re, sys
+sys.path.insert(0, os.path.dirname(os.path.dirname(os.path.abspath(__file__))))
+from translate_lib import read, fn_body, Fail, HEADER, coq_bool
+
+
+# ------------------------------------------------- variant of par_rcb_split
+def gen_rcb():
+    """Which variant of the cut search the source implements (Model/Rcb.v,
+    Record variant): read from fn par_rcb_split, comments stripped."""
+    rel = "src/algorithms/recursive_bisection.rs"
+    body = fn_body(read(rel), "par_rcb_split")
+    if body is None:
+        raise Fail("fn par_rcb_split not found")
+    code = re.sub(r"//[^\n]*", "", body)
+    code = re.sub(r"\s+", " ", code)
+
+    def has(pat):
+        return pat in code
+
+    old = has("prev_count_left")
+    coord_pats = ["*point < split_target", "*point < nearest_coord", "nearest_coord0 < nearest_coord1", "max <= nearest_coord"]
+    dist_pats = ["let distance = point - split_target", "distance < 0.0", "distance < nearest_distance",
+                 "nearest_distance0 < nearest_distance1", "max <= split_target + nearest_distance"]
+    if all(has(p) for p in coord_pats) and not any(has(p) for p in dist_pats):
+        by_coord = True
+    elif all(has(p) for p in dist_pats) and not any(has(p) for p in coord_pats):
+        by_coord = False
+    else:
+        raise Fail("par_rcb_split: fold/reduce/stop rule compare neither coordinates nor distances consistently")
+    if has("let split_target = if exhausted { max } else { middle };") and has("let exhausted = !(min < middle && middle < max);"):
+        probe_max, mid_name = True, "middle"
+    elif has("let exhausted = !(min < split_target && split_target < max);") or old:
+        probe_max, mid_name = False, "split_target"
+    else:
+        raise Fail("par_rcb_split: definition of split_target / exhausted not recognised")
+    if has("let %s = min / 2.0 + max / 2.0;" % mid_name):
+        safe_mid = True
+    elif has("let %s = (min + max) / 2.0;" % mid_name):
+        safe_mid = False
+    else:
+        raise Fail("par_rcb_split: midpoint expression not recognised")
+    if not old:
+        for p in ["None if exhausted =>", "max = split_target; continue;", "|| imbalance <= tolerance",
+                  "if weight_left < weight_right { min = split_target; } else { max = split_target; }"]:
+            if not has(p):
+                raise Fail("par_rcb_split: expected `%s`" % p)
+    out = HEADER.format(src=rel)
+    out += "Definition rcb_old_rules : bool := %s.\n" % coq_bool(old)
+    out += "Definition rcb_by_coord : bool := %s.\n" % coq_bool(by_coord)
+    out += "Definition rcb_probe_max : bool := %s.\n" % coq_bool(probe_max)
+    out += "Definition rcb_safe_mid : bool := %s.\n" % coq_bool(safe_mid)
+    return out
+
+
+GENERATORS = {"RcbGen.v": gen_rcb}
+
 
 PROP = dict(
     bin="c03",
